@@ -16,6 +16,11 @@ straight-line piece of a goroutine between two channel operations:
  writer goroutine
   writerTake        `w = <-chW`
   writerExpire      deadline-expired work: `w.err = ErrTimeout; w.done <- …; continue` — nothing is transmitted
+  writerBegin       the deadline check `!w.deadline.IsZero() && time.Since(w.deadline) >= 0` found the item alive: the
+                    writer goes on to `w.resp.ParseNetConn`, SetWriteDeadline and `w.req.Write(bw)` (which may block for
+                    long: a body stream fed slowly, a connection that does not drain).  The deadline is NOT looked at
+                    again: whatever happens to it while the request is being written, a written request is pushed to chR
+                    (or the writer returns and the connection is dropped) — `FInv.eq` depends on exactly that
   writerWrite       `w.req.Write(bw)` succeeded (the request is in the connection's bufio.Writer): `written`; the flush
                     is armed (`flushTimerCh = instantTimerCh`) iff it was not armed and chW is empty or chR is full
   writerFlush       `case <-flushTimerCh: bw.Flush()` in one of the writer's two blocking selects: everything
@@ -61,7 +66,7 @@ structure Work where
   deriving DecidableEq, Repr
 
 inductive WrPc
-  | idle | took (w : Nat) | push (w : Nat) | exited
+  | idle | took (w : Nat) | writing (w : Nat) | push (w : Nat) | exited
   deriving DecidableEq, Repr
 
 inductive RdPc
@@ -94,7 +99,7 @@ inductive Event
   | sendBlocked (w : Nat) | doPop (w : Nat) | doRetry (w : Nat)
   | timerFired (w : Nat) | deadlinePassed (w : Nat)
   | returnTimeout (w : Nat) | returnDone (w : Nat)
-  | writerTake | writerExpire | writerWrite | writerWriteFail | writerPush | writerPushFail | writerStop | writerIdleExit
+  | writerTake | writerExpire | writerBegin | writerWrite | writerWriteFail | writerPush | writerPushFail | writerStop | writerIdleExit
   | writerFlush
   | readerTake | readerOk | readerFail | readerStop
   | drainOne | restart
@@ -189,20 +194,26 @@ def step (s : State) : Event → Option State
       | some x => if x.deadline ∧ x.expired then some (answer { s with writer := .idle } w .timeout) else none
       | none => none
     | _ => none
-  | .writerWrite =>
+  | .writerBegin =>
     match s.writer with
     | .took w =>
       match s.works[w]? with
+      | some x => if x.deadline ∧ x.expired then none else some { s with writer := .writing w }
+      | none => none
+    | _ => none
+  | .writerWrite =>
+    match s.writer with
+    | .writing w =>
+      match s.works[w]? with
       | some x =>
-        if x.deadline ∧ x.expired then none
-        else some { s with writer := .push w, works := s.works.set w { x with written := true }, wire := s.wire ++ [w],
-                           buffered := s.buffered ++ [w],
-                           armed := s.armed || s.chW.isEmpty || (s.chR.length == s.max) }
+        some { s with writer := .push w, works := s.works.set w { x with written := true }, wire := s.wire ++ [w],
+                      buffered := s.buffered ++ [w],
+                      armed := s.armed || s.chW.isEmpty || (s.chR.length == s.max) }
       | none => none
     | _ => none
   | .writerWriteFail =>
     match s.writer with
-    | .took w => some (answer { s with writer := .exited, stopping := true, armed := false, buffered := [] } w .connErr)
+    | .writing w => some (answer { s with writer := .exited, stopping := true, armed := false, buffered := [] } w .connErr)
     | _ => none
   | .writerPush =>
     match s.writer with
@@ -268,6 +279,7 @@ def run (s : State) : List Event → Option State
 def wrHeld (s : State) : List Nat :=
   match s.writer with
   | .took w => [w]
+  | .writing w => [w]
   | .push w => [w]
   | _ => []
 
